@@ -744,6 +744,44 @@ def gen_cases(tier, seed):
                        {"op": "moveaxis", "s": 0, "d": 2}, {"op": "broadcast_arrays", "other": [4, 2, 1, 3]}):
                 cases.append({"spec": with_format(s, fmt, ca), "op": op, "stream": "valid", "huge": False})
 
+    # ---- R. repeated / sign-aliased axes in tuple form.  roll: NumPy ADDS the shifts of pairs naming the same axis
+    #         (shifts that are no multiples of the extent); moveaxis / flip / squeeze / transpose / permute_dims: the same
+    #         axis named twice, once from the end, must be rejected as NumPy does; swapaxes(a, a - ndim) is the identity
+    for nd in (1, 2, 3):
+        for rep in range(4 if not th else 16):
+            shape = [rng.choice([2, 3, 4, 5]) for _ in range(nd)]
+            a = rng.randrange(nd)
+            n = shape[a]
+            s1, s2, s3 = rng.randint(1, n - 1), rng.randint(1, 2 * n + 1), -rng.randint(1, n + 2)
+            if (s1 + s2) % n == s2 % n:
+                s1 += 1
+            for shift, axes in (([s1, s2], [a, a]), ([s1, s2], [a, a - nd]), ([s1, s2, s3], [a, a - nd, a]),
+                                ([s3, s1], [a - nd, a]), (1, [a, a]), (rng.randint(1, n - 1) or 1, [a, a - nd]),
+                                ([s1, s2, s3], [a, (a + 1) % nd, a - nd])):
+                add(arr(shape=shape, density=rng.choice([0.4, 0.7, 1.0])), {"op": "roll", "shift": shift, "axis": axes},
+                    formats=coo_only)
+            ones = list(shape)
+            ones[a] = 1
+            sq = arr(shape=ones)
+            for op in ({"op": "moveaxis", "s": [a, (a + 1) % nd][:min(2, nd)], "d": [a, a - nd][:min(2, nd)]},
+                       {"op": "moveaxis", "s": [a, a - nd], "d": [a, (a + 1) % nd]},
+                       {"op": "flip", "axis": [a, a - nd]}, {"op": "flip", "axis": [a - nd, a]},
+                       {"op": "transpose", "axes": [a - nd if k == (a + 1) % nd else k for k in range(nd)] if nd > 1 else [0, -1], "api": "method"},
+                       {"op": "transpose", "axes": [a, a - nd] + [k for k in range(nd) if k != a][1:], "api": "permute_dims"},
+                       {"op": "swapaxes", "a": a, "b": a - nd}):
+                add(arr(shape=shape), op, formats=coo_only if rng.random() < 0.7 else fmt_cycle(rng, nd, th), stream="malformed")
+            add(sq, {"op": "squeeze", "axis": [a, a - nd], "api": "method"}, formats=coo_only, stream="malformed")
+            add(sq, {"op": "squeeze", "axis": [a - nd, a], "api": "func"}, formats=coo_only, stream="malformed")
+    # ---- S. broadcast_to on 4-d / 5-d inputs with INTERIOR broadcast axes (the kept axes are not adjacent: the result
+    #         must be re-sorted; the raw coordinate order is compared with the model)
+    for src, tgt in ([[2, 3, 1, 4], [2, 3, 5, 4]], [[2, 1, 3, 2], [2, 4, 3, 2]], [[3, 2, 1, 2], [3, 2, 3, 2]],
+                     [[2, 1, 2, 1, 2], [2, 3, 2, 4, 2]], [[2, 2, 1, 3, 1], [2, 2, 2, 3, 2]], [[1, 2, 3, 1, 2], [3, 2, 3, 2, 2]],
+                     [[2, 1, 3], [4, 2, 5, 3]], [[2, 3, 1, 2], [1, 2, 3, 2, 2]], [[2, 2, 1, 1, 3], [2, 2, 2, 2, 3]],
+                     [[1, 2, 2, 1, 2], [2, 2, 2, 3, 2]]):
+        for _ in range(2 if not th else 6):
+            add(arr(shape=src, density=rng.choice([0.3, 0.7, 1.0])),
+                {"op": "broadcast_to", "shape": tgt, "api": rng.choice(["method", "func"])}, formats=coo_only)
+
     # ---- N. narrow index dtypes (int8 / uint8 / int16 coordinates), extents and results crossing 127 / 255 / 32767,
     #         few stored elements with the high end populated: a result coordinate that wraps is caught by the exact
     #         comparison with the model (unbounded Z) and by the dense comparison with the Spec
